@@ -533,6 +533,21 @@ def gen_multi(rng, ncalls):
             'family': 'multi-zero-latency'}
 
 
+def gen_tiny_pieces(rng):
+    """one stream moving very small pieces as fast as it can: the chunk size the commands choose with many connections
+    (L // (16 * n) for n = 64 .. 1000 is worth a millisecond or less), for one to two seconds' worth of payload - every piece
+    owes its d/L however small"""
+    L = 2 ** rng.randint(12, 20)
+    conc = rng.choice([64, 64, 100, 128, 256, 1000])
+    d = max(L // (conc * rng.choice(site_divisors())), 1)
+    ncalls = min(int(rng.choice([1, 1.5, 2]) * L / d), 1600)
+    calls = []
+    for _ in range(ncalls):
+        e = Fr(0) if rng.random() < 0.95 else Fr(d, L) / 2
+        calls.append(['0', str(d), fs(e), '0'])
+    return {'threads': 1, 'L': L, 'dmax': d, 'dir': rng.choice('rw'), 'calls': [calls], 'stack': False, 'family': 'single-tiny-pieces'}
+
+
 def gen_multi_large(rng):
     """3-8 streams on one limiter moving pieces of up to a quarter second's worth (the property's d <= L/4, not only the
     commands' small chunk), zero latency, greedy: several seconds' worth of payload, so that whoever queues behind another
@@ -1055,7 +1070,7 @@ def gen_command_case(rng, command=None, variant=None):
     """a rate-limited command run: limit, concurrency, and the sizes of the files / objects it transfers - many of them
     no longer than the transfer chunk size the command chooses, some around it, some much longer"""
     L = rng.choice([2048, 4096, 8000, 8192, 20000, 65536])
-    n = rng.choice([1, 2, 5])
+    n = rng.choice([1, 2, 5, 5, 64])        # 64 connections: pieces of L // 1024 bytes, worth a millisecond
     chunk = max(L // (n * 16), 1)
     family = rng.choice(['small', 'small', 'boundary', 'mixed', 'large'])
     if variant == 's3-large':
@@ -1207,6 +1222,8 @@ def run(ctx) -> Report:
         scs.append(gen_positioned(rng))
     for _ in range(ctx.scale(30, 300)):
         scs.append(gen_multi_large(rng))
+    for _ in range(ctx.scale(4, 40)):
+        scs.append(gen_tiny_pieces(rng))
     scs.append(slow_io_probe(rng, False))
     scs.append(slow_io_probe(rng, True))
     exercise(scs, rep, rng)
@@ -1235,6 +1252,8 @@ def search(ctx, broken) -> Report:
         scs.append(gen_positioned(rng))
     for _ in range(300):
         scs.append(gen_multi_large(rng))
+    for _ in range(40):
+        scs.append(gen_tiny_pieces(rng))
     exercise(scs, rep, rng, with_model=False)
     site_probe(rep, rng)
     real_threads_probe(rep, rng, 3)
